@@ -170,6 +170,9 @@ func (g *VCGen) beforeClauses(c *ssa.CallCommon, pos token.Pos, instr ssa.Instru
 		name = c.Method.Name()
 	} else if callee := c.StaticCallee(); callee != nil {
 		name = callee.Name()
+		if i := strings.Index(name, "["); i > 0 {
+			name = name[:i]
+		}
 	} else if key := dynCallKey(c.Value); key != "" {
 		name = key[strings.LastIndex(key, ".")+1:]
 	}
@@ -191,10 +194,29 @@ func (g *VCGen) beforeNamed(name string, pos token.Pos, instr ssa.Instruction) {
 		blk = instr.Block()
 	}
 	if blk != nil {
-		env.locals = g.localsAt(blk, nil)
+		env.locals = g.localsAtInstr(blk, instr, nil)
 	}
 	for k, cl := range cls {
-		g.oblige(fmt.Sprintf("before.%s.%d@%s", name, k, g.fn.Prog.Fset.Position(pos).String()[strings.LastIndex(g.fn.Prog.Fset.Position(pos).String(), "/")+1:]), "requires", g.trGoal(env, cl), "before "+name+": "+cl.Text, pos)
+		goal, ok := func() (s string, ok bool) {
+			defer func() {
+				if r := recover(); r != nil {
+					if se, isSE := r.(specErr); isSE && strings.Contains(string(se), "unknown identifier") {
+						// the clause names a variable that is not in scope at this call site: it does not apply here
+						g.warnings = append(g.warnings, fmt.Sprintf("before %s clause %d skipped at %s (%s)", name, k, g.fn.Prog.Fset.Position(pos), string(se)))
+						ok = false
+						return
+					}
+					panic(r)
+				}
+			}()
+			return g.trGoal(env, cl), true
+		}()
+		if !ok {
+			continue
+		}
+		g.oblige(fmt.Sprintf("before.%s.%d@%s", name, k, g.fn.Prog.Fset.Position(pos).String()[strings.LastIndex(g.fn.Prog.Fset.Position(pos).String(), "/")+1:]), "requires", goal, "before "+name+": "+cl.Text, pos)
+		// like an assert statement: once checked, the fact is available downstream (a cut point for the solver)
+		g.assumeHere(g.trClause(env, cl))
 	}
 }
 
@@ -346,7 +368,10 @@ func (g *VCGen) applyContract(fc *FuncContract, pkg *types.Package, names []stri
 	if fc.PanicsIff != nil {
 		q := g.trClause(env, *fc.PanicsIff)
 		if g.fc != nil && g.fc.MayPanic {
-			// allowed
+			// allowed, unless the caller's contract rules this callee's panic out
+			if noPanicAt(g.fc, fc.Name) {
+				g.oblige(label+".nopanic", "nopanic", not(q), "callee panics when: "+fc.PanicsIff.Text+" (caller declares 'nopanic' for it)", pos)
+			}
 		} else if g.fc == nil || g.fc.PanicsIff == nil {
 			g.oblige(label+".nopanic", "nopanic", not(q), "callee panics when: "+fc.PanicsIff.Text, pos)
 		} else if g.fc.PanicKind == "tla" && fc.PanicKind != "tla" {
@@ -591,6 +616,15 @@ func (g *VCGen) copyBuiltin(c *ssa.CallCommon, pos token.Pos, v *ssa.Call) SpecV
 func stdlibPure(path string) bool {
 	for _, p := range []string{"strings", "strconv", "fmt", "errors", "time", "os", "log", "math", "math/rand", "bytes", "sort", "unicode", "unicode/utf8", "path/filepath", "io"} {
 		if path == p {
+			return true
+		}
+	}
+	return false
+}
+
+func noPanicAt(fc *FuncContract, callee string) bool {
+	for _, n := range fc.NoPanicAt {
+		if callee == n || strings.HasSuffix(callee, "."+n) {
 			return true
 		}
 	}
